@@ -84,6 +84,13 @@ def whole_object_save_and_restore(ctx):
     good = len(ups) == 1 and ups[0][1] == ('attr', ('name', sn), '__dict__') and ups[0][2][:1] == [('attr', ('name', src_p), '__dict__')]
     ctx.check(good, 'AbstractSolver.__load_state', 'self.__dict__.update(solver.__dict__, **kwds)',
               '__load_state no longer transplants the whole instance dict', g, ups[0][0] if ups else g.node)
+    # the transplant is ALL __load_state does to the solver: any further store (resetting _live, counters, monitors) makes the
+    # restored solver differ from the one that was saved - e.g. a cleared _live re-decorates the objective at the next step,
+    # which rebuilds a bounded simplex / consumes random numbers while re-clipping
+    extra = [(a, node) for a, kind, node in attr_writes(g.node, sn) if a != '__dict__']
+    ctx.check(not extra, 'AbstractSolver.__load_state#only-transplant', 'no attribute of the solver is written besides the __dict__ update',
+              '__load_state also writes %s after transplanting the saved state: the restored solver is not the solver that was saved' % sorted(set(a for a, n_ in extra)),
+              g, extra[0][1] if extra else g.node)
     # LoadSolver (and the private helpers it calls): a fresh instance of the recorded type, imported from mystic.solvers, then the transplant
     h = ctx.func('mystic.solvers:LoadSolver')
     scope = [h]
@@ -497,6 +504,16 @@ def sticky_settings_are_stored_merged(ctx):
         ctx.need(paths, '%s: no path returns' % f.qualname)
         ctx.stats['paths_enumerated'] += len(paths)
         seeded_all = {}
+        # locals standing for a stored setting (strategy = getattr(strategy_module, self.strategy, default)) are resolved, so a
+        # key seeded from such a local counts as seeded from the attribute
+        lb = T.Builder()
+        for st0 in f.node.body:
+            if isinstance(st0, ast.Assign) and len(st0.targets) == 1 and isinstance(st0.targets[0], ast.Name):
+                lb.exec_stmt(st0)
+
+        def from_attribute(v):
+            tv = T.simp(lb.t(v))
+            return any(isinstance(x, tuple) and len(x) == 3 and x[0] == 'attr' and x[1] == ('name', sn) for x in T.subterms(tv))
         for p in paths:
             state = {}          # key -> 'seeded' | 'merged'
             kept = set()        # keys whose merged value was stored on the instance
@@ -531,8 +548,7 @@ def sticky_settings_are_stored_merged(ctx):
             for k in state:
                 if state[k] == 'seeded':
                     ctx.bad('%s#%s' % (f.qualname, k), 'the settings returned on path %s never receive the caller\'s %r' % (p.describe(4), k), f, first)
-                elif k not in kept and k in seeded_all and any(isinstance(x, ast.Attribute) and isinstance(x.value, ast.Name) and x.value.id == sn
-                                                                for x in ast.walk(seeded_all[k])):
+                elif k not in kept and k in seeded_all and from_attribute(seeded_all[k]):
                     # seeded from an attribute of the solver, merged, but never stored back
                     ctx.bad('%s#%s' % (f.qualname, k), 'settings[%r] is seeded from the solver and merged with the caller\'s keywords but never stored back (path %s): not kept across a checkpoint'
                             % (k, p.describe(4)), f, first)
